@@ -173,7 +173,7 @@ def build(ctx):
     def gjob(name, lmax, extra, note, tier="quick", timeout=600):
         # CBMC numbers loops by their back edges: matchglob.2 is the outer retry loop (one iteration per backtrack entry),
         # matchglob.1 scans the pattern, matchglob.0 skips in the name; a too small bound shows as *undecided*, never as a violation
-        kb.job(name, "h_glob", kind="bounded", flags=["--sat-solver", "minisat2"], unwind=lmax + 3, unwindset=["matchglob.2:%d" % (lmax * lmax + 7)], no_std_checks=False,
+        kb.job(name, "h_glob", kind="bounded", flags=["--sat-solver", "minisat2"], unwind=lmax + 3, unwindset=["matchglob.2:%d" % (16 if lmax <= 3 else 70)], no_std_checks=False,
                defines=["NOCONTRACT", "LMAX=%d" % lmax] + extra, replay="glob", timeout=timeout, tier=tier, note=note)
     gjob("matchglob", 3, ["SMALL_ALPHABET"], "pattern and name of length <= 3 over the alphabet {* ? a b A} (the code inspects characters only through equality with the specials and each other)")
     gjob("matchglob.ci", 3, ["SMALL_ALPHABET", "CASEINS"], "case-insensitive mode, length <= 3, alphabet {* ? a b A}")
